@@ -475,6 +475,12 @@ def main():
 
     for pid, text, kw in progs:
         texts[pid] = text
+        if re.search(r'^\s*\[?\s*"[^"\n]*\\', text, re.M):
+            # a match key with a backslash escape: the codec IR carries key literals as written (both the dispatch table
+            # and the key member), the scaffold interpreter evaluates the sample's literal as the target language would -
+            # the two views differ by the unescaping only, which would be reported as an ill-typed sample
+            verdicts[(pid, "*", "*")] = {"verdict": "NotEvaluated(outside the modelled input space)", "why": "escaped string key literal"}
+            continue
         req = {"op": "gen", "text": text, "langs": [codec.HOOK_LANG[l] for l in LANGS]}
         if kw.get("allow_cyclic"):
             req["allow_cyclic"] = True
